@@ -286,6 +286,17 @@ func genCall() *rapid.Generator[call] {
 		} else {
 			k.Args.Labels = map[string]bool{}
 		}
+		// now and then a very large message or string value (hundreds of KB to a few MB): still one whole Write
+		if rapid.IntRange(0, 149).Draw(t, "huge") == 0 {
+			n := rapid.SampledFrom([]int{300 << 10, 520 << 10, 600 << 10, 1100 << 10, 2200 << 10}).Draw(t, "hugeSize")
+			big := strings.Repeat("0123456789abcdef", n/16)
+			if rapid.Bool().Draw(t, "hugeMsg") || k.EP.NoArg {
+				k.Msg = big
+			} else {
+				k.Args.Args = append(k.Args.Args, "huge", big)
+			}
+			k.Args.Labels["huge-string"] = true
+		}
 		if k.EP.Name == "Logger.Println" || k.EP.Name == "slog.Println" {
 			switch rapid.IntRange(0, 3).Draw(t, "printlnMode") {
 			case 0:
